@@ -15,7 +15,7 @@ func init() {
 		ID:  "C27",
 		Run: runC27,
 		Explanation: "Static decision of the structural conditions of S3 listing pagination: (1) GUARD-uploads: in the listing walk a directory entry is emitted, descended into or probed only on the edge where its name differs from the multipart staging folder, and that literal is the one the multipart code builds its folder from; (2) GUARD-maxkeys: an entry is emitted only while fewer than max-keys were counted, the filer is asked for max-keys+1 entries starting strictly after the marker under the requested prefix, and the page is marked truncated exactly when a further entry arrives after the page is full; " +
-			"(3) ORDER-resume: after resuming inside a sub-directory named by the marker, the walk always continues with the parent directory's own listing (the only place where truncation at the page boundary is detected); errors of the resume and of recursive descents are propagated; (4) PROV-page: the next marker is cleared when the page is not truncated, V2 reports it as continuation token and resumes from the continuation token or start-after. Completeness and exactly-once enumeration over arbitrary trees are not decided.",
+			"(3) ORDER-resume: after resuming inside a sub-directory named by the marker, the walk always continues with the parent directory's own listing (the only place where truncation at the page boundary is detected); errors of the resume and of recursive descents are propagated; (4) PROV-page: the next marker is cleared when the page is not truncated, V2 reports it as continuation token and resumes from the continuation token or start-after. Completeness and exactly-once enumeration over arbitrary trees are not decided. Also decided: with a continuation token the marker is the token; start-after is used only on the edge where the token is empty.",
 		Assumptions: []string{"the filer returns entries of one directory in name order, strictly after StartFromFileName when InclusiveStartFrom is false"},
 		Trusted:     baseTrusted,
 	})
